@@ -576,7 +576,7 @@ Definition report_diags (v : str) : outcome (list diag) unit :=
   let email := o_parseaddr O v in
   if negb (hmem 64 email) then
     match o_urlscheme O v with
-    | URaise => Crash CValueError                 (* urllib.parse.urlparse raises, nothing catches it *)
+    | URaise => Ok [DInvalidReport v]             (* except ValueError: scheme = '' *)
     | UNoScheme => Ok [DInvalidReport v]
     | UScheme => Ok []
     end
